@@ -28,7 +28,7 @@ ASSUMPTIONS = ["well-formed outputs: record layout as written by RAMSES (ramses/
                "text files (info, descriptors) are real files parsed by osyris' own eval / np.loadtxt on the enumerated texts",
                "byte order, int32 overflow of record markers (records >= 2 GiB), float32 files are outside the claim",
                "M_sun: osyris' value is compared with the IAU/CODATA value at 1e-3 (C08)"]
-BOUNDS = {"quick": {"ndim": "1,2,3", "ncpu": "1,2", "levels": "<= 3", "nboundary": "0,1", "nxyz": "(1,1,1),(3,1,1)",
+BOUNDS = {"quick": {"ndim": "1,2,3", "ncpu": "1,2", "levels": "<= 3", "nboundary": "0,1 (2 regions for two 1-CPU trees)", "nxyz": "(1,1,1),(3,1,1)",
                     "trees": "flat, refined (same owner), refined (other owner), deep (down to levelmax)",
                     "variables": "hydro {2 scalars, hd with velocity, MHD list}, grav on/off, rt on/off",
                     "symbolic": "noutput >= 1, bound_key width >= 0, ghost/boundary grid counts >= 0 per (file, level, domain), all doubles, son indices",
@@ -85,6 +85,13 @@ def configs(tier):
                             out.append(dict(base, load="all:zero"))
     out.append(dict(ndim=3, ncpu=2, shape="refined-other", nboundary=0, nxyz=[1, 1, 1], levelmax=2, hydro="hd", grav=False, rt=False,
                     units=list(UNITSETS[0]), nout=-1, load="all:zero"))
+    if not big:
+        # two boundary regions (their per-level ghost-grid counts free and independent of each other), also in the quick tier
+        for ndim, shape, L in ((2, "deep", 3), (3, "refined", 2)):
+            base = dict(ndim=ndim, ncpu=1, shape=shape, nboundary=2, nxyz=[3, 3, 1], levelmax=L, hydro={2: "hd", 3: "two"}[ndim], grav=(ndim == 2),
+                        rt=False, units=list(UNITSETS[ndim % 2]), nout=1)
+            out.append(dict(base, load="file:0", _split=2))
+            out.append(dict(base, load="all:positive"))
     # the remaining variable names of the unit library (momentum, internal_energy, temperature, energy, two-digit groups, unknown names)
     for ndim in (1, 2, 3):
         for us in UNITSETS:
